@@ -11,12 +11,15 @@ import (
 
 // CleanCase is one case of scenario clean (C12).
 type CleanCase struct {
-	Prog      Program           `json:"prog"`
-	Tree      map[string]string `json:"tree"`
-	Dirs      []string          `json:"dirs,omitempty"`
-	Cwd       string            `json:"cwd,omitempty"`
-	PreRun    []string          `json:"pre_run,omitempty"` // tasks run before --clean (creates the cache, like an earlier simulated run)
-	RemoveErr int               `json:"remove_err"`        // the n-th removal fails with EACCES; -1 = none
+	Prog   Program           `json:"prog"`
+	Tree   map[string]string `json:"tree"`
+	Dirs   []string          `json:"dirs,omitempty"`
+	Cwd    string            `json:"cwd,omitempty"`
+	PreRun []string          `json:"pre_run,omitempty"` // tasks run before --clean (creates the cache, like an earlier simulated run)
+	// PreCrash >= 0: that earlier run is killed at its n-th crash point (the first few lie inside the creation of
+	// the cache directory), so --clean meets a half-initialised cache
+	PreCrash  int `json:"pre_crash,omitempty"`
+	RemoveErr int `json:"remove_err"` // the n-th removal fails with EACCES; -1 = none
 	// Spokfile: how the spokfile is named on the command line: "" (found from cwd), "abs" (--spokfile /abs/path),
 	// "rel" (--spokfile <path relative to cwd>, e.g. ./spokfile, ../spokfile or proj/spokfile from $HOME)
 	Spokfile string `json:"spokfile,omitempty"`
@@ -110,6 +113,9 @@ func (cleanScen) Gen(r *Rng, cfg GenConfig) any {
 	}
 	if r.Chance(1, 2) {
 		c.PreRun = []string{c.Prog.Tasks[0].Name}
+		if r.Chance(1, 6) {
+			c.PreCrash = 1 + r.Intn(5) // stored +1 so that the zero value means "not killed"
+		}
 	}
 	if r.Chance(1, 6) {
 		c.RemoveErr = r.Intn(3)
@@ -203,7 +209,14 @@ func (cleanScen) Exec(w *World, cc any, prop string) *Result {
 	}
 	inv := 0
 	if len(c.PreRun) > 0 {
-		obs := w.Invoke(Invocation{Args: append(append([]string{}, c.PreRun...), "--json"), Cwd: proj, Env: w.BaseEnv(), Inv: inv, Sched: Sched{Policy: "fifo"}, Faults: NoFaults()})
+		pf := NoFaults()
+		if c.PreCrash > 0 {
+			pf.CrashAt = c.PreCrash - 1
+		}
+		obs := w.Invoke(Invocation{Args: append(append([]string{}, c.PreRun...), "--json"), Cwd: proj, Env: w.BaseEnv(), Inv: inv, Sched: Sched{Policy: "fifo"}, Faults: pf})
+		if obs.Crashed != "" {
+			res.count("fault_fired:earlier_run_killed_at_" + strings.SplitN(obs.Crashed, "(", 2)[0])
+		}
 		inv++
 		res.Ops++
 		res.event("prerun %v failed=%v", c.PreRun, obs.Failed)
@@ -475,6 +488,9 @@ func (cleanScen) Shrinks(cc any) []any {
 		n := cloneJSON(*c)
 		f(&n)
 		out = append(out, &n)
+	}
+	if c.PreCrash > 0 {
+		add(func(n *CleanCase) { n.PreCrash = 0 })
 	}
 	if len(c.PreRun) > 0 {
 		add(func(n *CleanCase) { n.PreRun = nil })
